@@ -1345,10 +1345,16 @@ class VM:
             sep = "," if not args or args[0] is UNDEFINED else to_string(args[0])
             return sep.join(array_elem_to_string(elem) for elem in arr._elements)
 
+        def callback_arg(args):
+            """The callback of an iteration method: a TypeError unless it can be
+            called (also when there is nothing to iterate)."""
+            callback = args[0] if args else UNDEFINED
+            if not (isinstance(callback, JSFunction) or callable(callback)):
+                raise JSTypeError(f"{vm._describe(callback)} is not a function")
+            return callback
+
         def map_fn(*args):
-            callback = args[0] if args else None
-            if not callback:
-                return JSArray()
+            callback = callback_arg(args)
             result = JSArray()
             result._elements = []
             for i, elem in live_items():
@@ -1357,9 +1363,7 @@ class VM:
             return result
 
         def filter_fn(*args):
-            callback = args[0] if args else None
-            if not callback:
-                return JSArray()
+            callback = callback_arg(args)
             result = JSArray()
             result._elements = []
             for i, elem in live_items():
@@ -1369,10 +1373,8 @@ class VM:
             return result
 
         def reduce_fn(*args):
-            callback = args[0] if args else None
+            callback = callback_arg(args)
             initial = args[1] if len(args) > 1 else UNDEFINED
-            if not callback:
-                raise JSTypeError("reduce callback is not a function")
             acc = initial
             start_idx = 0
             if len(args) < 2:
@@ -1387,10 +1389,8 @@ class VM:
             return acc
 
         def reduceRight_fn(*args):
-            callback = args[0] if args else None
+            callback = callback_arg(args)
             initial = args[1] if len(args) > 1 else UNDEFINED
-            if not callback:
-                raise JSTypeError("reduceRight callback is not a function")
             acc = initial
             length = len(arr._elements)
             start_idx = length - 1
@@ -1435,9 +1435,7 @@ class VM:
             return result
 
         def forEach_fn(*args):
-            callback = args[0] if args else None
-            if not callback:
-                return UNDEFINED
+            callback = callback_arg(args)
             for i, elem in live_items():
                 vm._call_callback(callback, [elem, i, arr], this_arg(args))
             return UNDEFINED
@@ -1463,9 +1461,7 @@ class VM:
             return -1
 
         def find_fn(*args):
-            callback = args[0] if args else None
-            if not callback:
-                return UNDEFINED
+            callback = callback_arg(args)
             for i, elem in live_items(skip_removed=False):
                 val = vm._call_callback(callback, [elem, i, arr], this_arg(args))
                 if to_boolean(val):
@@ -1473,9 +1469,7 @@ class VM:
             return UNDEFINED
 
         def findIndex_fn(*args):
-            callback = args[0] if args else None
-            if not callback:
-                return -1
+            callback = callback_arg(args)
             for i, elem in live_items(skip_removed=False):
                 val = vm._call_callback(callback, [elem, i, arr], this_arg(args))
                 if to_boolean(val):
@@ -1483,9 +1477,7 @@ class VM:
             return -1
 
         def some_fn(*args):
-            callback = args[0] if args else None
-            if not callback:
-                return False
+            callback = callback_arg(args)
             for i, elem in live_items():
                 val = vm._call_callback(callback, [elem, i, arr], this_arg(args))
                 if to_boolean(val):
@@ -1493,9 +1485,7 @@ class VM:
             return False
 
         def every_fn(*args):
-            callback = args[0] if args else None
-            if not callback:
-                return True
+            callback = callback_arg(args)
             for i, elem in live_items():
                 val = vm._call_callback(callback, [elem, i, arr], this_arg(args))
                 if not to_boolean(val):
@@ -1547,7 +1537,9 @@ class VM:
             return False
 
         def sort_fn(*args):
-            comparator = args[0] if args else None
+            comparator = args[0] if args else UNDEFINED
+            if comparator is not UNDEFINED:
+                comparator = callback_arg(args)
 
             # Default string comparison
             def default_compare(a, b):
